@@ -236,7 +236,19 @@ def isHex (c : Char) : Bool := ('0' ≤ c && c ≤ '9') || ('a' ≤ c && c ≤ '
 /-- `restic.ParseID` succeeds (length 64, `hex.DecodeString` accepts) -/
 def parsesAsID (s : List Char) : Bool := s.length == 64 && s.all isHex
 
-/-- names `os.CreateTemp(dir, base+"-tmp-")` produces: pattern without `*`, random decimal suffix -/
-def tempName (base suffix : List Char) : List Char := base ++ "-tmp-".toList ++ suffix
+/-- the text of a Go string literal as written (`"…"`, no escapes expected) without its quotes -/
+def unquote (lit : String) : Option (List Char) :=
+  match lit.toList with
+  | '"' :: rest => (match rest.reverse with | '"' :: mid => some mid.reverse | _ => none)
+  | _ => none
+
+/-- The infix of temporary names, from the regenerated `literals` fact of `Local.Save`: the first
+    string literal of the body (`tmpname := filepath.Base(finalname) + "-tmp-"`). The
+    correspondence run checks every temporary name it sees against this infix. -/
+def tmpInfixOf (lits : List String) : Option (List Char) :=
+  lits.findSome? unquote
+
+/-- names `os.CreateTemp(dir, base+infix)` produces: pattern without `*`, random decimal suffix -/
+def tempName (base inf suffix : List Char) : List Char := base ++ inf ++ suffix
 
 end Restic.Model.LocalFS
